@@ -1,3 +1,112 @@
-import LA.Model.ReadAhead
+/-
+C05 — Results do not depend on read block sizes or on the byte source.
+
+Every format reader and read filter of libarchive obtains archive bytes only
+through `__archive_read_filter_ahead` / `__archive_read_filter_consume`
+(model: `LA.RA`, file LA/Model/ReadAhead.lean).  The theorems below say that
+what any client of that interface can observe is a function of the byte
+stream alone: not of how the read callback cut it into blocks, and not of
+whether (or how eagerly) a well-behaved skip callback is offered.
+Helper lemmas: LA/Lemmas/ReadAhead*.lean.
+-/
+import LA.Lemmas.ReadAheadRefine
 namespace LA.C05
+open LA.RA
+
+/-- A client of the peek/consume interface: it may look at the first `min` bytes
+of the window (`min ≤ 2^62`; the C would fail the allocation long before) and
+choose its next step from everything it has seen so far. -/
+inductive Prog (α : Type) where
+  | ret (a : α)
+  | ahead (min : Nat) (h : min ≤ 2 ^ 62) (k : Obs → Prog α)
+  | consume (n : Int) (k : Int → Prog α)
+
+/-- Run a client against the implementation model. -/
+def runImpl {α : Type} : Prog α → State → α
+  | .ret a, _ => a
+  | .ahead min _ k, s => runImpl (k (obsOf min (ahead s min).1)) (ahead s min).2
+  | .consume n k, s => runImpl (k (consume s n).1) (consume s n).2
+
+/-- Run a client against the abstract stream. -/
+def runSpec {α : Type} : Prog α → Spec → α
+  | .ret a, _ => a
+  | .ahead min _ k, sp => runSpec (k (specAhead sp min).1) (specAhead sp min).2
+  | .consume n k, sp => runSpec (k (specConsume sp n).1) (specConsume sp n).2
+
+/-- The implementation model refines the abstract stream for every client,
+from every state satisfying the representation invariant. -/
+theorem run_refines {α : Type} (p : Prog α) (s : State) (hi : Inv s) (hsk : SkipsOk s.skips) :
+    runImpl p s = runSpec p (absN s) := by
+  induction p generalizing s with
+  | ret a => rfl
+  | ahead min h k ih =>
+    obtain ⟨i1, i2, i3, i4, _⟩ := ahead_refines s min hi h
+    simp only [runImpl, runSpec]
+    rw [i3, ← i4]
+    exact ih _ _ i1 (by rw [i2]; exact hsk)
+  | consume n k ih =>
+    obtain ⟨i1, i2, i3⟩ := consume_refines s n hi hsk
+    simp only [runImpl, runSpec]
+    rw [i2, ← i3]
+    exact ih _ _ i1 (consume_skips s n hsk)
+
+/-- Freshly opened filter over a block script. -/
+def open_ (src : List (List Nat)) (t : Term) (skips : List Int) (canSkip : Bool) : State :=
+  { src := src, term := t, skips := skips, canSkip := canSkip }
+
+/-- **C05, partition independence.**  Two sources that deliver the same bytes
+(in blocks of any sizes, down to one byte at a time) and end the same way give
+every client the same results, whatever skip capability each offers. -/
+theorem partition_independent {α : Type} (p : Prog α) (src1 src2 : List (List Nat)) (t : Term)
+    (sk1 sk2 : List Int) (cs1 cs2 : Bool)
+    (h1 : SrcOk src1) (h2 : SrcOk src2) (hcat : src1.flatten = src2.flatten)
+    (hk1 : SkipsOk sk1) (hk2 : SkipsOk sk2) :
+    runImpl p (open_ src1 t sk1 cs1) = runImpl p (open_ src2 t sk2 cs2) := by
+  have e1 := run_refines p (open_ src1 t sk1 cs1) (inv_init src1 t sk1 cs1 h1) hk1
+  have e2 := run_refines p (open_ src2 t sk2 cs2) (inv_init src2 t sk2 cs2 h2) hk2
+  rw [e1, e2]
+  congr 1
+  simp [absN, open_, remaining, hcat]
+
+/-- Non-vacuity: two different partitions of the same five bytes, one with a skip
+callback and one without, satisfy the hypotheses. -/
+example : SrcOk [[1, 2], [3, 4, 5]] ∧ SrcOk [[1], [2], [3], [4], [5]] ∧
+    [[1, 2], [3, 4, 5]].flatten = [[1], [2], [3], [4], [5]].flatten ∧ SkipsOk [3, 0] ∧ SkipsOk [] := by
+  refine ⟨?_, ?_, by decide, ?_, ?_⟩ <;> simp [SrcOk, SkipsOk]
+
+/-- The window handed out is always a prefix of the unconsumed stream, at least
+`min` long: a parser never sees bytes that are not the archive's. -/
+theorem window_is_stream_prefix (s : State) (min : Nat) (hi : Inv s) (hmin : min ≤ 2 ^ 62)
+    (w : List Nat) (fc : Bool) (h : (ahead s min).1 = .window w fc) :
+    w <+: remaining s ∧ min ≤ w.length ∧ remaining (ahead s min).2 = remaining s := by
+  unfold ahead at h ⊢
+  by_cases hf : s.fatal = true
+  · simp [hf] at h
+  · have hf' : s.fatal = false := by simpa using hf
+    simp only [hf', Bool.false_eq_true, if_false] at h ⊢
+    obtain ⟨_, _, _, g4⟩ := aheadLoop_spec s min hi hf' hmin
+    rw [h] at g4
+    exact ⟨g4.2.1, g4.2.2.1, g4.1⟩
+
+/-- `consume` moves the stream position by exactly the amount it reports. -/
+theorem consume_exact (s : State) (n : Nat) (hi : Inv s) (hf : s.fatal = false) (hn : 0 < n)
+    (hle : n ≤ (remaining s).length) (hsk : SkipsOk s.skips) :
+    (consume s n).1 = n ∧ remaining (consume s n).2 = (remaining s).drop n ∧
+    (consume s n).2.position = s.position + n := by
+  have hc := consume_refines s n hi hsk
+  obtain ⟨g1, g2, _, g4⟩ := advance_spec s n hi hf hn
+  unfold consume at *
+  have h1 : ¬ ((n : Int) < 0) := by omega
+  have h2 : ¬ ((n : Int) = 0) := by omega
+  simp only [h1, h2, if_false, Int.toNat_natCast] at *
+  generalize advance s n = r at *
+  obtain ⟨sk, s'⟩ := r
+  simp only [] at *
+  rcases g4 with ⟨a1, a2, a3, a4, a5⟩ | ⟨a1, a2, a3, a4, a5⟩ | ⟨a1, a2, a3⟩
+  · simp [a1, a3, a4]
+  · omega
+  · rcases a3 with a3 | ⟨b1, _⟩
+    · exact absurd hsk a3
+    · omega
+
 end LA.C05
